@@ -490,3 +490,257 @@ func init() {
 		Rule: "one evaluation = one history with no-op commits, tiny trees, pruning, rollback, reopening at older versions and identical/different re-commits; after every structural step, live and again on a freshly opened handle, for every version number 0..latest+1: VersionExists, AvailableVersions, GetImmutable, LoadVersion (scratch handle), GetVersioned and GetLatestVersion are compared with R1's contiguous range; commit numbers and re-commit outcomes are checked in the step itself; non-trivial = >=2 version audits after >=1 commit",
 		Gen:  func(seed uint64, run int, tier string) *drv.Plan { return genPlan("C14", seed, run, c14Bias(tier)) }, Exec: execC14})
 }
+
+// ----------------------------------------------------------------------- C04
+
+func c04Bias(tier string) drv.Bias {
+	b := drv.DefaultBias()
+	b.NoEmptyValues = true
+	b.Prune, b.Pin = 70, 30
+	b.NoopVersion = 35
+	b.Tiny, b.Small = 45, 40
+	b.LVFO, b.DVF, b.Reopen, b.Load, b.Recommit = 10, 3, 10, 0, 0
+	b.Flushes = []int{150, 180, 200, 260, 320, 400, 1000, 100000}
+	b.InitVers = []int64{0, 0, 0, 6, 1 << 40}
+	b.MaxVersions = 14
+	if tier == "thorough" {
+		b.MaxVersions = 30
+	}
+	return b
+}
+
+// relabel makes a violation found by a shared oracle the property's own.
+func relabel(v *drv.Violation, prop, clause string) *drv.Violation {
+	if v == nil {
+		return nil
+	}
+	v.Oracle = prop + "." + clause + "/" + v.Oracle
+	v.Prop = prop
+	return v
+}
+
+func execC04(p *drv.Plan) *Out {
+	st := &drv.ProofStats{}
+	audits := 0
+	auditLater := func(w *drv.World, id int, phase string) *drv.Violation {
+		keys := w.ProbeKeys()
+		if v := relabel(w.AuditVersions(phase, false), "C04", "availability"); v != nil {
+			return v
+		}
+		for _, ver := range w.M.Versions() {
+			if v := relabel(w.AuditVersion("C04", "C04.later-version-intact", ver, keys), "C04", phase); v != nil {
+				return v
+			}
+		}
+		if v := relabel(w.AuditHashes(), "C04", "later-version-intact"); v != nil {
+			return v
+		}
+		// proofs for 3 present + 3 absent keys of every later version
+		r := drv.SubRand(p, "c04", id, phase)
+		for _, ver := range w.M.Versions() {
+			m := w.M.Committed[ver]
+			if m.Len() == 0 {
+				continue
+			}
+			var sel [][]byte
+			np, na := 0, 0
+			for _, i := range permOf(r, len(keys)) {
+				_, ok := m.Get(keys[i])
+				if ok && np < 3 {
+					sel = append(sel, keys[i])
+					np++
+				} else if !ok && na < 3 {
+					sel = append(sel, keys[i])
+					na++
+				}
+			}
+			it, err := w.Tree.GetImmutable(ver)
+			if err != nil {
+				return &drv.Violation{Prop: "C04", Oracle: "C04.later-version-intact", Symptom: "version-unreadable", Class: phase, Detail: fmt.Sprintf("GetImmutable(%d): %v", ver, err), StepID: id}
+			}
+			if v := relabel(w.AuditProofs(phase, it, w.T.RootHash(ver), m, sel, nil, r, st), "C04", "later-version-proofs"); v != nil {
+				return v
+			}
+		}
+		audits++
+		return nil
+	}
+	hooks := drv.Hooks{
+		Prop: "C04",
+		After: func(w *drv.World, s drv.Step) *drv.Violation {
+			if s.Op != drv.OpPrune {
+				return nil
+			}
+			if v := auditLater(w, s.ID, "after-prune"); v != nil {
+				return v
+			}
+			if w.Clean() {
+				r := drv.SubRand(p, "c04-restart", s.ID)
+				if v := relabel(w.Restart(r.Chance(1, 2), r.Pick(0, 2, 1000)), "C04", "restart"); v != nil {
+					return v
+				}
+				return auditLater(w, s.ID, "after-restart")
+			}
+			return nil
+		},
+	}
+	r1 := drv.RunPlan(p, p.Config, hooks)
+	out := stdOut(p, r1)
+	out.Stats["prune_audits"] = audits
+	out.Stats["proofs_verified"] = st.Positive
+	out.NonTrivial = audits >= 1
+	return out
+}
+
+func permOf(r *sim.Rand, n int) []int {
+	p := make([]int, n)
+	for i := range p {
+		p[i] = i
+	}
+	for i := n - 1; i > 0; i-- {
+		j := r.Intn(i + 1)
+		p[i], p[j] = p[j], p[i]
+	}
+	return p
+}
+
+// ----------------------------------------------------------------------- C09
+
+func c09Bias(tier string, r *sim.Rand) drv.Bias {
+	b := drv.DefaultBias()
+	b.LVFO, b.DVF, b.Discard = 40, 15, 30
+	b.Prune, b.Reopen, b.Load, b.Recommit = 15, 15, 3, 10
+	b.MaxVersions = 14
+	b.InitVers = []int64{0, 0, 0, 4, 1 << 40}
+	// a share of the runs uses trees large enough for a rollback to delete many
+	// stored nodes (more than the 64-entry buffer of the MemDB iterator)
+	b.Backends = []string{"simdb", "simdb", "simdb", "simdb", "memdb", "prefix-memdb", "leveldb"}
+	if r.Chance(1, 5) {
+		b.Tiny, b.Small, b.MediumMax = 0, 0, 60
+		b.MaxOpsPerVersion = 30
+	}
+	if tier == "thorough" {
+		b.MaxVersions = 25
+	}
+	return b
+}
+
+func execC09(p *drv.Plan) *Out {
+	rolled := false
+	audits := 0
+	hooks := drv.Hooks{
+		Prop: "C09",
+		After: func(w *drv.World, s drv.Step) *drv.Violation {
+			switch s.Op {
+			case drv.OpLVFO, drv.OpDVF, drv.OpDiscard:
+				rolled = true
+			}
+			if !rolled {
+				return nil
+			}
+			audits++
+			// from the rollback on, the tree must be indistinguishable from one
+			// whose history simply ended there: R1/R2 are exactly that history
+			if v := relabel(w.AuditAll("C09", "C09.reads"), "C09", "after-rollback"); v != nil {
+				return v
+			}
+			if v := relabel(w.AuditHashes(), "C09", "after-rollback"); v != nil {
+				return v
+			}
+			if !isStructural(s.Op) {
+				return nil
+			}
+			if v := relabel(w.AuditVersions("after-rollback", false), "C09", "after-rollback"); v != nil {
+				return v
+			}
+			if v := relabel(w.AuditStore("C09", false, w.Imported), "C09", "after-rollback"); v != nil {
+				return v
+			}
+			if w.Fast && w.Sim != nil && s.Op != drv.OpDiscard {
+				return relabel(w.AuditFastIndex("C09"), "C09", "after-rollback")
+			}
+			return nil
+		},
+	}
+	r1 := drv.RunPlan(p, p.Config, hooks)
+	// failures of the steps executed after a rollback are the property's own too
+	if r1.Foreign != nil && rolled && r1.Vio == nil {
+		r1.Vio = relabel(r1.Foreign, "C09", "after-rollback")
+		r1.Foreign = nil
+	}
+	out := stdOut(p, r1)
+	out.Stats["post_rollback_audits"] = audits
+	out.NonTrivial = audits >= 2 && r1.W.P["rollback.to-older"] > 0
+	return out
+}
+
+// ----------------------------------------------------------------------- C15
+
+func c15Bias(tier string, r *sim.Rand) drv.Bias {
+	b := drv.DefaultBias()
+	b.SaveCS, b.ReplayCS = 20, 70
+	b.Prune, b.Reopen = 12, 12
+	b.LVFO, b.DVF, b.Load, b.Recommit = 0, 0, 0, 0
+	b.NoopVersion = 20
+	b.RemoveShare = 40
+	b.Tiny, b.Small, b.MediumMax = 30, 45, 24
+	b.MaxVersions = 10
+	b.InitVers = []int64{0, 0, 0, 3}
+	if r.Chance(1, 2) {
+		// normal-form runs: hashes of the replay are compared too
+		b.SortedWrites = true
+		b.Discard = 0
+		b.SetNil = 0
+		b.Prune = 0 // the replay needs every version since the first
+	} else if r.Chance(1, 2) {
+		b.Prune = 0
+	}
+	if tier == "thorough" {
+		b.MaxVersions = 20
+		b.MediumMax = 48
+	}
+	return b
+}
+
+func execC15(p *drv.Plan) *Out {
+	st := map[string]int{}
+	hooks := drv.Hooks{
+		Prop: "C15",
+		After: func(w *drv.World, s drv.Step) *drv.Violation {
+			if !isStructural(s.Op) && s.Op != drv.OpChangeSt {
+				return nil
+			}
+			return w.AuditChangeSets(drv.SubRand(p, "c15", s.ID), st)
+		},
+	}
+	r1 := drv.RunPlan(p, p.Config, hooks)
+	out := stdOut(p, r1)
+	for k, v := range st {
+		out.Stats[k] = v
+	}
+	out.NonTrivial = st["nonempty_changesets"] >= 2
+	return out
+}
+
+func init() {
+	assume := []string{
+		"reference models R1/R2/R3 under /verif/ref are the specification (written from docs and the property statements, not from iavl code)",
+		"SimDB: batch writes are atomic and totally ordered; keys non-empty; InitialVersion 0 = not configured",
+		"seeded sampling of histories and configurations: evidence within the stated bounds, not a proof",
+	}
+	Register(&Check{ID: "C04", Level: "exploration", Engine: "drv", QuickRuns: 3000, ThoroughS: 480, Components: stdComponents,
+		Assumptions: append([]string{"pruning is synchronous here (the mode in which the statement promises an error); asynchronous pruning is exercised in C06", "an Exporter kept open as a pin runs as a free goroutine; only results, never storage-call counts, enter the event log of such runs", "empty values excluded where proofs are verified"}, assume...),
+		Rule:        "one evaluation = one history biased to commits without writes, empty versions, single-leaf roots reused by later trees and rollbacks, with DeleteVersionsTo(n) for arbitrary n and flush thresholds that split one deletion over several physical batches, Exporters pinning versions; after every deletion request: rejected requests (latest, pinned) return an error and leave the disk byte-identical, requests below the first version are no-ops, and after a legal request every API agrees that versions <= n are gone and every later version has R1's contents, R2's hash and verifying ICS-23 proofs - immediately and again after a clean restart; non-trivial = >=1 full audit after a deletion request",
+		Gen:         func(seed uint64, run int, tier string) *drv.Plan { return genPlan("C04", seed, run, c04Bias(tier)) }, Exec: execC04})
+	Register(&Check{ID: "C09", Level: "exploration", Engine: "drv", QuickRuns: 800, ThoroughS: 480, Assumptions: assume, Components: stdComponents,
+		Rule: "one evaluation = one history H1, a rollback (discard of uncommitted changes, LoadVersionForOverwriting(v), or DeleteVersionsFrom(v+1)+reopen+LoadVersion(v)) for any retained v incl. latest/first/after pruning/repeated, and an arbitrary continuation H2; from the first rollback on, after every step: every read of every retained version and of the working state, every hash, all version APIs, the raw-disk reachability audit and the raw fast index are compared with R1/R2, which by construction are the history that simply ended at v; a share of runs uses real MemDB/GoLevelDB and trees with >64 stored nodes in the deleted range; non-trivial = >=2 post-rollback audits incl. a rollback to an older version",
+		Gen: func(seed uint64, run int, tier string) *drv.Plan {
+			return genPlan("C09", seed, run, c09Bias(tier, sim.Sub(seed, "C09-shape", run)))
+		}, Exec: execC09, RunTimeout: 40 * 1e9})
+	Register(&Check{ID: "C15", Level: "exploration", Engine: "drv", QuickRuns: 3000, ThoroughS: 480, Components: stdComponents,
+		Assumptions: append([]string{"no fault or schedule dimension: a pure function of the committed history; the simulator contributes histories x pruning x restarts x configurations", "the end bound of TraverseStateChanges is accepted both as inclusive and exclusive (documentation and implementation disagree)"}, assume...),
+		Rule:        "one evaluation = one history with repeated writes/removals of a key inside a version, set-then-remove, remove-then-set, identical rewrites, no-op and empty versions, pruning; after every structural step TraverseStateChanges is called for boundary and seeded ranges and every reported version whose predecessor is retained is compared with R1's normal-form change set; SaveChangeSet commits versions (incl. rejected removals of missing keys); at the end all change sets are replayed into an empty tree and every version's contents (and, for runs generated in normal form, root hash) must be reproduced; non-trivial = >=2 non-empty change sets compared",
+		Gen: func(seed uint64, run int, tier string) *drv.Plan {
+			return genPlan("C15", seed, run, c15Bias(tier, sim.Sub(seed, "C15-shape", run)))
+		}, Exec: execC15})
+}
